@@ -50,6 +50,12 @@ func (c04) Generate(r *rand.Rand, t string) []*Case {
 		h = append(h, hist.Op{Kind: "render", F: 0}, hist.Op{Kind: "imports", F: 0})
 		out = append(out, &Case{Hist: h, Stream: "all-hidden", NonTrivial: true, Meta: map[string]interface{}{"rc": rc}, Tags: []string{"all-hidden"}})
 	}
+	// settings-as-paths (c04_settings.go): the File's own setting strings (package name, path,
+	// canonical path, prefix, hint names) reused as referenced / hidden / Anon paths and vice
+	// versa, for all three constructors
+	for i, n := 0, tier(t, 2000, 100000); i < n; i++ {
+		out = append(out, settingsCase(r))
+	}
 	return out
 }
 
